@@ -14,7 +14,10 @@ fn side_files(job: &Value) -> Value {
             if let Some(p) = f.as_str() {
                 let content = std::fs::read(p).map(|b| String::from_utf8_lossy(&b).to_string()).unwrap_or_else(|e| format!("<unreadable: {e}>"));
                 m.insert(p.to_string(), json!(content));
-                let _ = std::fs::remove_file(p);
+                // a job that shares its path with later generations of the same history leaves the file in place
+                if !job.get("keep_side").and_then(|v| v.as_bool()).unwrap_or(false) {
+                    let _ = std::fs::remove_file(p);
+                }
             }
         }
     }
@@ -59,7 +62,25 @@ pub fn one_generation(job: &Value) -> Value {
 /// {"mode":"history","jobs":[job,...]}: run the jobs one after the other in this process.
 pub fn history_job(job: &Value) -> Value {
     let jobs = job.get("jobs").and_then(|j| j.as_array()).cloned().unwrap_or_default();
-    let outs: Vec<Value> = jobs.iter().map(one_generation).collect();
+    // "thread_per_generation": every generation runs on a thread of its own (started after the previous one was joined),
+    // so state that is per-thread in bindgen or in clang-sys is exercised as well as process-wide state
+    let per_thread = job.get("thread_per_generation").and_then(|v| v.as_bool()).unwrap_or(false);
+    let outs: Vec<Value> = jobs
+        .iter()
+        .map(|j| {
+            if per_thread {
+                let j = j.clone();
+                std::thread::Builder::new()
+                    .stack_size(64 << 20)
+                    .spawn(move || one_generation(&j))
+                    .unwrap()
+                    .join()
+                    .unwrap_or_else(|_| json!({"status":"panic","panic":"generation thread died"}))
+            } else {
+                one_generation(j)
+            }
+        })
+        .collect();
     json!({"status":"ok","outs":outs})
 }
 
